@@ -80,6 +80,9 @@ def cum_requests(op, dt, codes, vals, ng, mask, skip_na):
         s = sx(["cum_spec", dom, op, list(codes), atoms(v, dom), bmask_sx(mask)])
     elif op == "sum":
         s = sx(["cumsum_noskip_spec", dom, list(codes), atoms(v, dom), bmask_sx(mask)])
+    elif op in ("min", "max"):
+        # skip_na=False: a null that is not skipped makes the running extreme null from there on, wherever it stands
+        s = sx(["cumext_noskip_spec", dom, 1 if op == "max" else 0, list(codes), atoms(v, dom), bmask_sx(mask)])
     else:
         s = None
     return m, s, dom
